@@ -56,7 +56,7 @@ class Obj(Engine):
                        'SignatureHash / RawSignatureHash', 'VerifyScript']
     stubbed_components = ['nothing: no environment is involved in these properties']
     sim_time_note = 'no clock or timers: the explored dimension is the order of operations on an aliased object graph'
-    nontrivial_rule = ('run = one history (systematic preamble: every history of length <= 3 over a 28-operation alphabet on two initial transactions; then seeded histories of '
+    nontrivial_rule = ('run = one history (systematic preamble: every history of length <= 3 over a 29-operation alphabet on two initial transactions; then seeded histories of '
                        '4-60 operations) on a pool of <= 6 handles; distinct = distinct trace-shape digest (operation kinds and targets); '
                        'non-trivial = >= 2 handles interacted (copy/snapshot/block/eq) or a cache was planted before an edit')
     quick_runs = 4000
@@ -91,7 +91,8 @@ class Obj(Engine):
         if r < 0.67:
             return {'op': 'badset', 'h': h, 'field': rng.choice(['nLockTime', 'nVersion', 'vout.nValue', 'vin.nSequence']), 'i': i}
         if r < 0.70:
-            return {'op': 'mcopy', 'h': h, 'part': rng.choice(['self', 'self', 'vin', 'vout', 'prevout']), 'i': i}
+            return {'op': 'mcopy', 'h': h, 'part': rng.choice(['self', 'self', 'vin', 'vout', 'prevout']), 'i': i,
+                    'via': rng.choice(['from', 'from', 'from', 'deepcopy', 'deepcopy', 'pickle'])}
         if r < 0.73:
             return {'op': 'rt', 'h': h, 'enc': rng.choice(['canon', 'canon', 'marker-empty', 'nonminimal', 'nonminimal']), 'sel': rng.randrange(64)}
         if r < 0.76:
@@ -180,6 +181,7 @@ class Obj(Engine):
                 {'op': 'rt', 'h': 1, 'enc': 'marker-empty', 'sel': 0},
                 {'op': 'rt', 'h': 0, 'enc': 'nonminimal', 'sel': 0},
                 {'op': 'retype', 'h': 0, 'which': 'both', 'to': 'tuple'},
+                {'op': 'mcopy', 'h': 0, 'part': 'self', 'i': 0, 'via': 'deepcopy'},
             ]
             type(self).ALPHABET = A
         return self.ALPHABET
@@ -473,6 +475,26 @@ class Obj(Engine):
             if kind in ('header', 'block'):
                 log('skip-kind')
                 return None
+            via = a.get('via', 'from') if to_mut else 'from'
+            if via != 'from' and type(src).__name__.startswith('CMutable'):
+                # the standard library's own copy protocols applied to a mutable object: an independent
+                # object with the same field values (a shallow copy.copy shares the lists by definition and
+                # is not used)
+                try:
+                    if via == 'deepcopy':
+                        new = copy.deepcopy(src)
+                    else:
+                        import pickle
+                        new = pickle.loads(pickle.dumps(src))
+                except Exception as e:
+                    ctx.probe('stdlib-copy-refused.' + via)
+                    log('%s/%s' % (kind, via), 'refused')
+                    return None
+                k2 = self._add(H(kind, True, new, copy.deepcopy(smod)))
+                self.interacted = True
+                ctx.fault('stdlib-copy.' + via)
+                log('%s/%s/%s' % (kind, part, via), [hidx, k2])
+                return k2
             try:
                 if kind == 'tx':
                     new = (C.CMutableTransaction if to_mut else C.CTransaction).from_tx(src)
